@@ -12,7 +12,7 @@ from props.c20_cxxio import (F_DEC, F_OCT, F_HEX, F_SHOWBASE, F_SHOWPOS, F_UPPER
                              F_SKIPWS, BASEFIELDS, ADJUSTS, fval, in_line)
 
 LEAN_MODULES = ["MpirProofs.Props.C20_io2"]
-THEOREMS = ["Mpir.CxxIo.extractF_spec", "Mpir.CxxIo.extractF_props", "Mpir.CxxIo.extractF_never_invalid", "Mpir.CxxIo.roundtripZ", "Mpir.CxxIo.roundtripQ",
+THEOREMS = ["Mpir.CxxIo.extractF_spec", "Mpir.CxxIo.extractF_props", "Mpir.CxxIo.extractF_never_invalid", "Mpir.CxxIo.extractF_not_good", "Mpir.CxxIo.roundtripZ", "Mpir.CxxIo.roundtripQ",
             "Mpir.CxxIo.emitPieces_layout", "Mpir.CxxIo.insertF_layout", "Mpir.CxxIo.insertF_sign"]
 PINS = [("cxx/ismpf.cc", None), ("cxx/osmpf.cc", None), ("cxx/osfuns.cc", None), ("cxx/osdoprnti.cc", None), ("printf/doprntf.c", "__gmp_doprnt_mpf"),
         ("gmp-impl.h", "gmp_allocated_string"), ("printf/asprntffuns.c", None)]
